@@ -20,7 +20,8 @@ From SV Require Import Model.WireIpv4 Proofs.WireIpv4Proofs.
 From SV Require Import Model.WireIpv6 Proofs.WireIpv6Proofs.
 From SV Require Import Model.WireIcmpv4 Proofs.WireIcmpv4Proofs.
 From SV Require Import Model.WireIcmpv6 Proofs.WireIcmpv6Proofs.
-From SV Require Import Model.WireTcp Proofs.WireTcpProofs Proofs.WireTcpEmitProofs Proofs.WireTcpParseProofs.
+From SV Require Import Model.WireTcp Proofs.WireTcpProofs Proofs.WireTcpEmitProofs.
+From SV Require Import Proofs.WireTcpParseProofs Proofs.WireTcpReparseProofs.
 
 (* ---------------- Ethernet II (src/wire/ethernet.rs) ---------------- *)
 
@@ -268,7 +269,10 @@ Print Assumptions C06_icmpv6_reparse.
 (* ---------------- TCP incl. all options (src/wire/tcp.rs) ----------------
    [tcp_wf] is the proviso (Model/WireTcp.v): ports <> 0, window scale <= 14, option space <= 40,
    SACK ranges a prefix of the array and only with an ACK and without SACK-permitted (decision on
-   candidate defect D15). *)
+   candidate defect D15).  Every clause except the last ([tcp_sack_ok]) holds of whatever Repr::parse
+   accepts; re-parse is therefore stated for parsed representations with [tcp_sack_ok r = true]
+   (a received segment carrying SACK ranges without ACK, or together with SACK-permitted, parses
+   but is re-emitted without the ranges). *)
 
 Theorem C06_tcp_emit_no_panic : forall sum_fill tx r b,
   tcp_wf r = true -> blen b = tcp_buffer_len r -> tcp_emit sum_fill tx r b <> Panic.
@@ -287,3 +291,12 @@ Theorem C06_tcp_roundtrip : forall sum_ok sum_fill tx rx r b,
   exists bs, tcp_emit sum_fill tx r b = Ok bs /\ blen bs = tcp_buffer_len r /\ tcp_parse sum_ok rx bs = Ok r.
 Proof. exact tcp_roundtrip. Qed.
 Print Assumptions C06_tcp_roundtrip.
+
+Theorem C06_tcp_reparse : forall sum_ok sum_fill tx rx bs r,
+  tcp_cksum_link sum_ok sum_fill -> bytes_ok bs = true -> (rx = true -> tx = true) ->
+  tcp_parse sum_ok rx bs = Ok r -> tcp_sack_ok r = true ->
+  tcp_wf r = true /\
+  forall b, blen b = tcp_buffer_len r ->
+    exists bs', tcp_emit sum_fill tx r b = Ok bs' /\ tcp_parse sum_ok rx bs' = Ok r.
+Proof. exact tcp_reparse. Qed.
+Print Assumptions C06_tcp_reparse.
